@@ -168,6 +168,13 @@ def report(pid, tier, seed, mod, results, wall, replay_mode=False, partial=False
         print(l)
     meta = getattr(mod, "META", {})
     linecov = line_coverage(funcs, results)
+    if os.environ.get("VERIF_DUMP_LINES"):
+        allc = {}
+        for r in results:
+            for f, ls in (r.get("lines") or {}).items():
+                allc.setdefault(f, set()).update(ls)
+        with open(os.environ["VERIF_DUMP_LINES"], "w") as fh:
+            json.dump({k: sorted(v) for k, v in allc.items()}, fh)
     if not partial:
         proved = [r for r in disch if not r.get("bounded")]
         all_ok = (not viol and not undec and not errs)
